@@ -312,7 +312,7 @@ def correspondence(ctx):
     rng = ctx.rng
     cases, terms = [], []
     nmax = 10 if ctx.thorough else 6
-    reps = 6 if ctx.thorough else 3
+    reps = 10 if ctx.thorough else 3
     for n in list(range(1, nmax + 1)) + ([17, 33, 100] if ctx.thorough else [17]):
         for cls in CLASSES:
             for rep in range(reps):
@@ -404,7 +404,9 @@ def run(ctx):
                 'implementation returned targets that were compared; distinct by the full input')
     ctx.trusted += ['harness/props/c16.py readers and comparators; torch elementwise ops (mul, round, where, comparisons, conv2d) are external and observed',
                     'Flocq BinarySingleNaN (Bmult, Bnearbyint, Bleb, Bltb) as the meaning of float32 arithmetic',
-                    'conv2d with the normalised Gaussian is an operator in the model; its only contract (sigma 0 = delta kernel = identity) is checked numerically each run',
+                    'conv2d with the normalised Gaussian is an operator in the model and an uninterpreted operator `blur k p` in the trace; its only contract (sigma 0 = delta kernel = identity) is checked numerically each run',
+                    'add_defocus_blur is traced along the path where every `sum(plane) > 0` guard holds (guards emitted and tied to the model); empty planes are covered by the model theorem, B2 and the oracles',
+                    'the tracer emits round-half-up (Rround) for torch.round; the difference to half-even (exact ties only) is irrelevant for the partition theorem (any quantiser) and is compared exactly by B2',
                     'tracer/shim.py + tracer/recipes/c16.py (translator; validated each run by the numeric self-check)']
     ctx.assumptions += ['images are non-negative (the `sum(plane) > 0` guard of add_defocus_blur is harmless only then)',
                         'depth values are finite float32 in [0, 1]; number of planes <= 2^24',
@@ -420,7 +422,7 @@ def run(ctx):
         ctx.case('oracle/delta_kernel', ('dk', k))
     ctx.obligation('contract:sigma0-kernel-is-delta(blur 0 f = f)', not any(v['function'].endswith('add_defocus_blur') for v in ctx.viol), 'see violations')
     # direct oracles
-    nor = 1500 if ctx.thorough else 300
+    nor = 4000 if ctx.thorough else 300
     for k in range(nor):
         kind = 'slice' if k % 3 == 2 else 'multiplane'
         inp = gen_oracle_case(ctx.rng, kind, big=(k % 10 == 0))
